@@ -211,7 +211,7 @@ class HostStatsSuite(Suite):
              'known:F24-cpu-count-shrinks': 'hknown_f24', 'known:F25-cpu-over-100': 'hknown_f25'}
 
     def generate(self, rng, tier):
-        n, max_len = (600, 14) if tier == 'quick' else (20000, 40)
+        n, max_len = (600, 14) if tier == 'quick' else (4000, 24)
         out = []
         for k in range(n):
             hostile = (k % 5 == 4)
@@ -426,7 +426,7 @@ class ProcStatsSuite(Suite):
     evals = {'mismatches': 'pmismatches', 'spec_violations': 'pspec_violations'}
 
     def generate(self, rng, tier):
-        n, max_len = (600, 18) if tier == 'quick' else (20000, 60)
+        n, max_len = (600, 18) if tier == 'quick' else (8000, 40)
         out = []
         for k in range(n):
             hostile = (k % 5 == 4)
@@ -631,7 +631,7 @@ class FloatSuite(Suite):
         return -rng.randint(0, 2 ** 70)
 
     def generate(self, rng, tier):
-        n = 1200 if tier == 'quick' else 60000
+        n = 1200 if tier == 'quick' else 40000
         out = []
         for k in range(n):
             kind = k % 4
